@@ -46,7 +46,7 @@ json generate(uint64_t seed, uint64_t idx, int tier)
 	}
 	plan["schemas"] = json::array({schema});
 	plan["knobs"] = {{"poison", true}, {"fill", r.chance(1, 2) ? 0xA5 : 0xFF}};
-	plan["world"] = {{"fs", json::array({{{"path", "/a"}, {"kind", "dir"}}, {{"path", "/b"}, {"kind", "dir"}}, fs_file("/a/f.conf", "# in /a\n"), fs_file("/b/f.conf", "# in /b\n")})}};
+	plan["world"] = {{"fs", json::array({{{"path", "/a"}, {"kind", "dir"}}, {{"path", "/b"}, {"kind", "dir"}}, fs_file("/a/f.conf", "# in /a\n"), fs_file("/b/f.conf", "# in /b\n"), fs_file("/a/only_a.conf", "# only in /a\n")})}};
 	int flags = r.chance(1, 3) ? F_COMMENTS : 0;
 	json steps = json::array();
 	ApiGen ag;
@@ -155,6 +155,14 @@ json generate(uint64_t seed, uint64_t idx, int tier)
 		init["keep"] = 1;
 		init["shared"] = 1;
 		steps.push_back(init);
+		if (r.chance(1, 2)) {
+			// the context has a search path of its own before the instances exist: they borrow it
+			json a = step(0, "addpath", 0);
+			a["dir"] = "/b";
+			a["shared"] = 1;
+			a["keep"] = 1;
+			steps.push_back(a);
+		}
 		for (const char *t : {"A", "B"}) {
 			json a = step(0, "addtsec", 0);
 			a["name"] = "inst";
@@ -191,7 +199,7 @@ json generate(uint64_t seed, uint64_t idx, int tier)
 				if (k < 52)
 					s["dir"] = "/a";
 				else
-					s["name"] = "f.conf";
+					s["name"] = "only_a.conf";
 				s["owner"] = 0;
 				steps.push_back(s);
 				continue;
